@@ -24,10 +24,23 @@ RULE = ("dense and sparse tensors (sparsity classes empty/one/some/all, stored o
         "with and without copying, comparison results (bool), or with .data re-pointed (layout of .data tagged F / C / FC / neither); sparse tensors "
         "filled entry by entry in unsorted order, overwritten, deleted from, grown, or taken from a grown dense tensor; "
         "tenmat / sptenmat wrapped around user arrays in those layouts; Kruskal / Tucker / sum tensors over such components; "
+        "second batch: what every converted object reports (tshape / rindices / cindices / matrix shape / shape / ndims / nnz) for every "
+        "ordered partition (N<=3 quick / N<=4 thorough), every convention and malformed splits, sparsity classes x stored orders; "
+        "double() / to_tensor() / full() of all seven classes; ktensor.to_tenmat over every ordered partition, every convention, ranks 1..3, "
+        "against the model, full().to_tenmat, the Khatri-Rao form and the sum formula; random chains of 2..6 conversions from any of the seven "
+        "classes (also dense / sparse operands with a history), ~4% with a missing method or malformed split; the tenmat constructor with "
+        "matrices of the prescribed and of other shapes with the same cell count, vectors, 3-way and empty arrays, defaults, bad modes; "
         "non-trivial = accepted and more than one cell; distinct = distinct case hash")
 ASSUMPTIONS = ["np.nonzero scans in C order of the F-order ravel = first index fastest; linear-index assignment "
                "through tensor.__setitem__ has last-write-wins semantics"]
-ANCHORS = [('pyttb/tensor.py', 'tensor.find'), ('pyttb/tensor.py', 'tensor.to_sptensor'), ('pyttb/tensor.py', 'tensor.to_tenmat'), ('pyttb/tenmat.py', 'tenmat.__init__'), ('pyttb/tenmat.py', 'tenmat.to_tensor'), ('pyttb/sptensor.py', 'sptensor.full'), ('pyttb/sptensor.py', 'sptensor.to_sptenmat'), ('pyttb/sptenmat.py', 'sptenmat.__init__'), ('pyttb/sptenmat.py', 'sptenmat.to_sptensor'), ('pyttb/sptenmat.py', 'sptenmat.full'), ('pyttb/ktensor.py', 'ktensor.full'), ('pyttb/pyttb_utils.py', 'gather_wrap_dims')]
+ANCHORS = [('pyttb/tensor.py', 'tensor.find'), ('pyttb/tensor.py', 'tensor.to_sptensor'), ('pyttb/tensor.py', 'tensor.to_tenmat'), ('pyttb/tenmat.py', 'tenmat.__init__'), ('pyttb/tenmat.py', 'tenmat.to_tensor'), ('pyttb/sptensor.py', 'sptensor.full'), ('pyttb/sptensor.py', 'sptensor.to_sptenmat'), ('pyttb/sptenmat.py', 'sptenmat.__init__'), ('pyttb/sptenmat.py', 'sptenmat.to_sptensor'), ('pyttb/sptenmat.py', 'sptenmat.full'), ('pyttb/ktensor.py', 'ktensor.full'), ('pyttb/pyttb_utils.py', 'gather_wrap_dims'),
+           ('pyttb/tensor.py', 'tensor.double'), ('pyttb/tensor.py', 'tensor.full'), ('pyttb/sptensor.py', 'sptensor.double'),
+           ('pyttb/sptensor.py', 'sptensor.to_tensor'), ('pyttb/ktensor.py', 'ktensor.double'), ('pyttb/ktensor.py', 'ktensor.to_tensor'),
+           ('pyttb/ktensor.py', 'ktensor.to_tenmat'), ('pyttb/ttensor.py', 'ttensor.double'), ('pyttb/ttensor.py', 'ttensor.to_tensor'),
+           ('pyttb/ttensor.py', 'ttensor.full'), ('pyttb/sumtensor.py', 'sumtensor.double'), ('pyttb/sumtensor.py', 'sumtensor.to_tensor'),
+           ('pyttb/sumtensor.py', 'sumtensor.full'), ('pyttb/tenmat.py', 'tenmat.double'), ('pyttb/tenmat.py', 'tenmat.shape'),
+           ('pyttb/tenmat.py', 'tenmat.ndims'), ('pyttb/sptenmat.py', 'sptenmat.double'), ('pyttb/sptenmat.py', 'sptenmat.shape'),
+           ('pyttb/sptenmat.py', 'sptenmat.nnz'), ('pyttb/sptensor.py', 'sptensor.nnz'), ('pyttb/tensor.py', 'tensor.nnz')]
 EXHAUSTIVE = {"quick": False, "thorough": False}
 
 
@@ -1464,6 +1477,732 @@ class DerivedHolders(Family):
         return out
 
 
+# ---------------------------------------------------------------------------------------------
+# Second batch: reports, double() / to_tensor() of every class, ktensor.to_tenmat, chains of
+# conversions, the tenmat constructor.  One evaluator (`_run_chain`) serves all of them: a case is
+# a start holder (any of the seven classes; dense / sparse also "with a history") and a list of
+# conversion calls.  After EVERY prefix of the chain three things are compared:
+#   implementation  - the real object: stored form, what it reports, double()
+#   model           - driver op c01_chain (Lean runChain: stored form, reports, Holder.double)
+#   specification   - the array the START holder denotes, computed here from the defining formulas
+#                     (sum formula for Kruskal / Tucker / sum, placement rule for the matricized
+#                     classes, never through pyttb), the expected mode split from the documented
+#                     conventions (`wrap_ref`), the matrix shape (prod r, prod c), the non-zero count.
+# ---------------------------------------------------------------------------------------------
+_HAS = {  # the conversion methods each class has, and the class they yield
+    "dense": {"full": "dense", "to_sptensor": "sparse", "to_tenmat": "tenmat"},
+    "sparse": {"full": "dense", "to_tensor": "dense", "to_sptenmat": "sptenmat"},
+    "kruskal": {"full": "dense", "to_tensor": "dense", "to_tenmat": "tenmat"},
+    "tucker": {"full": "dense", "to_tensor": "dense"},
+    "sum": {"full": "dense", "to_tensor": "dense"},
+    "tenmat": {"to_tensor": "dense"},
+    "sptenmat": {"full": "tenmat", "to_sptensor": "sparse"},
+}
+_METHODS = ("full", "to_tensor", "to_sptensor", "to_tenmat", "to_sptenmat")
+
+
+def wrap_ref(n, rd, cd, cyc):
+    """(rdims, cdims) the documented conventions prescribe for the arguments, or None when the split is
+    not a partition of the modes (the call has to be refused)"""
+    if rd is None and cd is None:
+        return None
+    for l in (rd, cd):
+        if l is not None and any(k < 0 or k >= n for k in l):
+            return None
+    if rd is not None and cd is None:
+        if len(rd) == 1 and cyc:
+            k = rd[0]
+            if cyc == "t":
+                r, c = [m for m in range(n) if m != k], [k]
+            elif cyc == "fc":
+                r, c = [k], list(range(k + 1, n)) + list(range(k))
+            else:
+                r, c = [k], list(range(k - 1, -1, -1)) + list(range(n - 1, k, -1))
+        else:
+            r, c = list(rd), [m for m in range(n) if m not in rd]
+    elif rd is None:
+        r, c = [m for m in range(n) if m not in cd], list(cd)
+    else:
+        r, c = list(rd), list(cd)
+    if sorted(r + c) != list(range(n)):
+        return None
+    return r, c
+
+
+def _kruskal_ref(w, fs):
+    shape = [len(f) for f in fs]
+    R = len(w)
+    return {"shape": shape, "data": [
+        sum(w[r] * int(np.prod([fs[n][i[n]][r] for n in range(len(shape))])) for r in range(R))
+        for i in gen.all_subs(shape)]}
+
+
+def _tucker_ref(core, fs):
+    at = dense_at(core)
+    shape = [len(f) for f in fs]
+    return {"shape": shape, "data": [
+        sum(at(j) * int(np.prod([fs[n][i[n]][j[n]] for n in range(len(shape))])) for j in gen.all_subs(core["shape"]))
+        for i in gen.all_subs(shape)]}
+
+
+def _unmatricize(tshape, rd, cd, mat):
+    """tensor whose (rd, cd) matricization is the matrix `mat` (placement rule of the property)"""
+    rs, cs = [tshape[k] for k in rd], [tshape[k] for k in cd]
+    R = gen.numel(rs)
+    if mat["shape"] != [R, gen.numel(cs)]:
+        raise ValueError(f"matrix shape {mat['shape']} is not (prod r, prod c) = {[R, gen.numel(cs)]}")
+    return {"shape": list(tshape), "data": [
+        mat["data"][sub2ind(rs, [i[k] for k in rd]) + R * sub2ind(cs, [i[k] for k in cd])] for i in gen.all_subs(tshape)]}
+
+
+def _triples_matrix(shape2, subs, vals):
+    mat = [0] * (shape2[0] * shape2[1])
+    for (a, b), v in zip(subs, vals):
+        if not (0 <= a < shape2[0] and 0 <= b < shape2[1]):
+            raise ValueError("stored pair outside the matrix")
+        mat[a + shape2[0] * b] += v
+    return {"shape": list(shape2), "data": mat}
+
+
+def holder_ref(h):
+    """the array a start holder (JSON) denotes, from the defining formulas"""
+    k = h["kind"]
+    if k == "dense":
+        return {"shape": list(h["shape"]), "data": list(h["data"])}
+    if k == "sparse":
+        return sp_to_dense_j(h)
+    if k == "kruskal":
+        return _kruskal_ref(h["weights"], h["factors"])
+    if k == "tucker":
+        return _tucker_ref(h["core"], h["factors"])
+    if k == "sum":
+        refs = [holder_ref(p) for p in h["parts"]]
+        return {"shape": refs[0]["shape"], "data": [sum(v) for v in zip(*[r["data"] for r in refs])]}
+    rs = [h["tshape"][m] for m in h["rdims"]]
+    cs = [h["tshape"][m] for m in h["cdims"]]
+    if k == "tenmat":
+        return _unmatricize(h["tshape"], h["rdims"], h["cdims"], h["data"])
+    return _unmatricize(h["tshape"], h["rdims"], h["cdims"],
+                        _triples_matrix([gen.numel(rs), gen.numel(cs)], h["subs"], h["vals"]))
+
+
+def holder_build(h):
+    """the real object for a start holder (JSON)"""
+    k = h["kind"]
+    if k == "dense":
+        return gen.mk_tensor(ttb, h["shape"], h["data"])
+    if k == "sparse":
+        return gen.mk_sptensor(ttb, h["shape"], h["subs"], h["vals"])
+    if k == "kruskal":
+        return gen.mk_ktensor(ttb, h["weights"], h["factors"])
+    if k == "tucker":
+        return ttb.ttensor(gen.mk_tensor(ttb, h["core"]["shape"], h["core"]["data"]),
+                           [np.array(f, dtype=float).reshape(len(f), h["core"]["shape"][n]) for n, f in enumerate(h["factors"])])
+    if k == "sum":
+        return ttb.sumtensor([holder_build(p) for p in h["parts"]])
+    r_, c_ = np.array(h["rdims"], dtype=int), np.array(h["cdims"], dtype=int)
+    if k == "tenmat":
+        d = h["data"]
+        return ttb.tenmat(np.array(d["data"], dtype=float).reshape(tuple(d["shape"]), order="F"), r_, c_, tuple(h["tshape"]))
+    n = len(h["subs"])
+    subs = np.array(h["subs"], dtype=int).reshape(n, 2) if n else None
+    vals = np.array(h["vals"], dtype=float).reshape(-1, 1) if n else None
+    return ttb.sptenmat(subs, vals, r_, c_, tuple(h["tshape"]), copy=h.get("copy", True))
+
+
+def _kind_of(X):
+    for k, cls in (("dense", ttb.tensor), ("sparse", ttb.sptensor), ("kruskal", ttb.ktensor), ("tucker", ttb.ttensor),
+                   ("sum", ttb.sumtensor), ("tenmat", ttb.tenmat), ("sptenmat", ttb.sptenmat)):
+        if isinstance(X, cls):
+            return k
+    raise TypeError(type(X))
+
+
+def state_j(X, start_j=None):
+    """canonical form of a real object: stored form, what it reports, double()"""
+    k = _kind_of(X)
+    if k == "dense":
+        h = dict(dense_j(X), kind="dense")
+        rep = {"shape": [int(v) for v in X.shape], "nnz": int(X.nnz)}
+        dbl = ndarray_j(X.double())
+    elif k == "sparse":
+        h = dict(sparse_j(X), kind="sparse")
+        rep = {"shape": [int(v) for v in X.shape], "nnz": int(X.nnz)}
+        dbl = ndarray_j(X.double())
+    elif k in ("kruskal", "tucker", "sum"):
+        h = start_j  # only ever a start holder: its components are the case's
+        rep = {"shape": [int(v) for v in X.shape]}
+        dbl = ndarray_j(X.double())
+    elif k == "tenmat":
+        h = {"kind": "tenmat", "tshape": [int(v) for v in X.tshape], "rdims": jval(X.rindices), "cdims": jval(X.cindices),
+             "data": ndarray_j(X.data)}
+        rep = {"tshape": h["tshape"], "rdims": h["rdims"], "cdims": h["cdims"], "shape": [int(v) for v in X.shape],
+               "ndims": int(X.ndims)}
+        dbl = ndarray_j(X.double())
+    else:
+        subs, vals = np.asarray(X.subs), np.asarray(X.vals)
+        h = {"kind": "sptenmat", "tshape": [int(v) for v in X.tshape], "rdims": jval(X.rdims), "cdims": jval(X.cdims),
+             "subs": [] if subs.size == 0 else jval(subs.astype(int)), "vals": [] if vals.size == 0 else jval(vals.reshape(-1))}
+        rep = {"tshape": h["tshape"], "rdims": h["rdims"], "cdims": h["cdims"], "shape": [int(v) for v in X.shape],
+               "nnz": int(X.nnz)}
+        dbl = ndarray_j(X.double().toarray())
+    return {"h": h, "rep": rep, "double": {"ok": dbl}}
+
+
+def _apply(X, st):
+    m = st["c"]
+    if m in ("to_tenmat", "to_sptenmat"):
+        return getattr(X, m)(**_kw(st))
+    return getattr(X, m)()
+
+
+def check_state(st, ref, split):
+    """specification side: does the state (canonical form of a real object) show the array `ref`, and is
+    what it reports consistent with it?  `split` = the (rdims, cdims) a matricized object must report."""
+    h, rep, dbl = st["h"], st["rep"], st["double"].get("ok")
+    k = h["kind"]
+    nz = sum(1 for v in ref["data"] if v != 0)
+    if k in ("tenmat", "sptenmat"):
+        if rep["tshape"] != ref["shape"]:
+            return f"{k} reports tshape {rep['tshape']} for a tensor of shape {ref['shape']}"
+        if split is not None and [rep["rdims"], rep["cdims"]] != [list(split[0]), list(split[1])]:
+            return f"{k} reports the split {rep['rdims']} | {rep['cdims']}, the conventions prescribe {split[0]} | {split[1]}"
+        rd, cd = rep["rdims"], rep["cdims"]
+        if sorted(rd + cd) != list(range(len(ref["shape"]))):
+            return f"{k} reports a split that is not a partition of the modes"
+        want = [gen.numel([ref["shape"][m] for m in rd]), gen.numel([ref["shape"][m] for m in cd])]
+        if rep["shape"] != want:
+            return f"{k} reports the matrix shape {rep['shape']}, its split prescribes {want}"
+        mref = matricize_ref(ref, rd, cd)
+        if k == "tenmat":
+            if rep["ndims"] != 2:
+                return "tenmat.ndims is not 2"
+            if not deep_eq(h["data"], mref):
+                return "the tenmat does not hold the matricization of the array (placement rule)"
+        else:
+            try:
+                mat = _triples_matrix(want, h["subs"], [frac_(v) for v in h["vals"]])
+            except ValueError as e:
+                return f"sptenmat: {e}"
+            if not deep_eq(jval(mat), mref):
+                return "the sptenmat does not denote the matricization of the array (placement rule)"
+            if rep["nnz"] != nz or len(h["subs"]) != nz:
+                return f"sptenmat reports nnz={rep['nnz']} / stores {len(h['subs'])} triples for {nz} non-zero cells"
+        if dbl is None or not deep_eq(dbl, mref):
+            return f"{k}.double() is not the matricization of the array"
+        return None
+    if rep["shape"] != ref["shape"]:
+        return f"{k} reports shape {rep['shape']} for a tensor of shape {ref['shape']}"
+    if k == "dense":
+        if not deep_eq({"shape": h["shape"], "data": h["data"]}, ref):
+            return "the dense tensor does not hold the array"
+        if rep["nnz"] != nz:
+            return f"tensor.nnz={rep['nnz']} for {nz} non-zero cells"
+    elif k == "sparse":
+        if len(set(map(tuple, h["subs"]))) != len(h["subs"]) or any(v == 0 for v in h["vals"]):
+            return "the sparse tensor is not well-formed (repeated subscript or explicit zero)"
+        if not deep_eq(sp_to_dense_j(h), ref):
+            return "the sparse tensor does not denote the array"
+        if rep["nnz"] != nz:
+            return f"sptensor.nnz={rep['nnz']} for {nz} non-zero cells"
+    if dbl is None or not deep_eq(dbl, ref):
+        return f"{k}.double() is not the array"
+    return None
+
+
+def frac_(v):
+    from harness.lib import frac
+    return frac(v)
+
+
+def _run_chain(cases, fam_tags):
+    """cases: {"H": start holder JSON (kind dense / sparse may carry "src": a recipe), "steps": [...]}"""
+    prepared = []
+    for c in cases:
+        H = c["H"]
+        info = {"H": H, "err": None}
+        try:
+            with _quiet():
+                if "src" in H:  # operand with a history: built by the recipe, reference book-kept from the recipe
+                    if H["kind"] == "dense":
+                        X = build_dense(H["src"])
+                        ref = ref_dense(H["src"]).dense_j()
+                        Hm = dict(read_dense(X), kind="dense")
+                        if not deep_eq({"shape": Hm["shape"], "data": Hm["data"]}, ref):
+                            raise ValueError("operand does not hold the array its history prescribes")
+                    else:
+                        X = build_sparse(H["src"])
+                        ref = ref_sparse(H["src"]).dense_j()
+                        Hm = dict(sparse_j(X), kind="sparse")
+                        if not deep_eq(sp_to_dense_j(read_sparse(X)), ref):
+                            raise ValueError("operand does not denote the array its history prescribes")
+                else:
+                    X = holder_build(H)
+                    ref = holder_ref(H)
+                    Hm = {k: v for k, v in H.items() if k != "copy"}
+            info.update(X=X, ref=ref, Hm=Hm)
+        except Exception as e:  # noqa: BLE001  (a shrunk case may be meaningless)
+            info["err"] = f"{type(e).__name__}: {e}"
+        prepared.append(info)
+    reqs = [{"op": "c01_chain", "H": p["Hm"], "steps": c["steps"]} for c, p in zip(cases, prepared) if p["err"] is None]
+    models = iter(drive(reqs))
+    out = []
+    for c, p in zip(cases, prepared):
+        tags = list(fam_tags(c))
+        if p["err"] is not None:
+            out.append(Verdict("ok", "", {"skipped": p["err"]}, None, None, tags + ["skipped"], False))
+            continue
+        m = next(models)
+        X, ref, Hm = p["X"], p["ref"], p["Hm"]
+        kind = Hm["kind"]
+        n = len(ref["shape"])
+        split = (Hm["rdims"], Hm["cdims"]) if kind in ("tenmat", "sptenmat") else None
+        trace = []
+        bad = None
+        want_ok = True
+        with _quiet():
+            states = [call(state_j, X, Hm)]
+            for st in c["steps"]:
+                if "ok" not in states[-1]:
+                    break
+                r = call(_apply, X, st)
+                if "ok" in r:
+                    X = r["ok"]
+                    states.append(call(state_j, X, None))
+                else:
+                    states.append(r)
+        # walk the prefixes
+        for k, stj in enumerate(states):
+            mk = m["trace"][k]
+            if k > 0:
+                st = c["steps"][k - 1]
+                tgt = _HAS[kind].get(st["c"])
+                if tgt is None:
+                    want_ok = False
+                elif st["c"] in ("to_tenmat", "to_sptenmat"):
+                    split = wrap_ref(n, st.get("rdims"), st.get("cdims"), st.get("cyc"))
+                    want_ok = split is not None
+                elif tgt != "tenmat":
+                    split = None
+                if want_ok:
+                    kind = tgt
+            if not want_ok:
+                if "ok" in stj:
+                    bad = f"step {k} ({c['steps'][k - 1]['c']}) must be refused (no such method / not a partition of the modes) but was accepted"
+                elif "ok" in mk:
+                    bad = f"step {k}: refused by the implementation and the specification, accepted by the model"
+                break
+            if "ok" not in stj:
+                bad = f"step {k} ({'start' if k == 0 else c['steps'][k - 1]['c']}) raised on a well-formed operand: {stj.get('exc')} {stj.get('msg')}"
+                break
+            sj = stj["ok"]
+            why = check_state(sj, ref, split)
+            if why:
+                bad = f"after {k} step(s): {why}"
+                break
+            if "ok" not in mk:
+                bad = f"step {k}: accepted by the implementation, refused by the model"
+                break
+            mm = mk["ok"]
+            if not deep_eq(sj["h"], mm["h"]):
+                bad = f"after {k} step(s): stored form differs from the proved model"
+            elif not deep_eq(sj["rep"], mm["rep"]):
+                bad = f"after {k} step(s): reported properties differ from the proved model"
+            elif not deep_eq(sj["double"], mm["double"]):
+                bad = f"after {k} step(s): double() differs from the proved model"
+            if bad:
+                break
+            trace.append(sj["h"]["kind"])
+        if bad is None and want_ok != bool(m["valid"]) and len(states) == len(c["steps"]) + 1:
+            bad = "the model's well-typedness of the chain differs from the specification's"
+        nt = want_ok and gen.numel(ref["shape"]) > 1 and any(v != 0 for v in ref["data"])
+        tags += [f"N{n}", "accepted" if want_ok else "refused"] + sorted({f"step:{a[:5]}>{b[:5]}" for a, b in zip(trace, trace[1:])})
+        out.append(Verdict("violation" if bad else "ok", bad or "", {"states": [strip_exc(s) if "ok" not in s else s for s in states]},
+                           m, {"ref": ref}, tags, nt))
+    return out
+
+
+def _shrink_chain(case):
+    st = case["steps"]
+    for k in range(len(st) - 1, -1, -1):
+        yield {**case, "steps": st[:k] + st[k + 1:]}
+    for k in range(len(st) - 1, 0, -1):
+        yield {**case, "steps": st[:k]}
+
+
+def _rand_split(rng, N, valid=True):
+    """arguments of a to_tenmat / to_sptenmat call"""
+    if not valid:
+        return rng.choice([{"rdims": [0], "cdims": [0]}, {"rdims": [N]}, {}, {"rdims": [0], "cdims": list(range(N))},
+                           {"cdims": [N + 1]}, {"rdims": [N], "cyc": "fc"}])
+    z = rng.random()
+    if z < 0.5:
+        p = gen.perm(rng, N)
+        k = rng.randint(0, N)
+        return {"rdims": p[:k], "cdims": p[k:]}
+    if z < 0.8:
+        return {"rdims": [rng.randrange(N)], "cyc": rng.choice(["fc", "bc", "t"])}
+    p = gen.perm(rng, N)
+    k = rng.randint(0, N)
+    return {"rdims": p[:k]} if rng.random() < 0.5 else {"cdims": p[:k]}
+
+
+def _shape_pool(rng, tier):
+    """distinct, repeated and singleton extents, orders 1..4"""
+    fixed = [[3], [1], [2, 3], [3, 3], [1, 4], [2, 3, 4], [3, 1, 2], [2, 2, 3], [1, 1, 2]]
+    fixed += [[2, 3, 1, 2], [3, 2, 4, 2]] if tier == "thorough" else [[2, 1, 2, 3]]
+    return fixed + [gen.shape(rng, 1, 4, 4, distinct=rng.random() < 0.5) for _ in range(4 if tier == "quick" else 30)]
+
+
+def rand_holder(rng, kind, s):
+    """a start holder of the given class for shape s (values of both signs and zeros, every stored order)"""
+    N = len(s)
+    if kind == "dense":
+        return {"kind": "dense", "shape": s, "data": gen.dense_data(rng, s, rng.choice([0.0, 0.3, 0.7, 1.0]))}
+    if kind == "sparse":
+        subs, vals = gen.sparse_entries(rng, s)
+        return {"kind": "sparse", "shape": s, "subs": subs, "vals": vals}
+    if kind == "kruskal":
+        R = rng.randint(1, 3)
+        return {"kind": "kruskal", "weights": gen.int_values(rng, R, -3, 3), "factors": [gen.matrix(rng, m, R) for m in s]}
+    if kind == "tucker":
+        cs = [rng.randint(1, 2) for _ in s]
+        return {"kind": "tucker", "core": {"shape": cs, "data": gen.dense_data(rng, cs)},
+                "factors": [gen.matrix(rng, m, cm) for m, cm in zip(s, cs)]}
+    if kind == "sum":
+        kinds = [rng.choice(["dense", "sparse", "kruskal", "tucker"]) for _ in range(rng.randint(1, 3))]
+        return {"kind": "sum", "parts": [rand_holder(rng, k, s) for k in kinds]}
+    p = gen.perm(rng, N)
+    k = rng.randint(0, N)
+    r, c_ = p[:k], p[k:]
+    R, C = gen.numel([s[m] for m in r]), gen.numel([s[m] for m in c_])
+    if kind == "tenmat":
+        return {"kind": "tenmat", "tshape": s, "rdims": r, "cdims": c_, "data": {"shape": [R, C], "data": gen.dense_data(rng, [R, C])}}
+    subs, vals = gen.sparse_entries(rng, [R, C])
+    if rng.random() < 0.5:  # the copying constructor sorts, the non-copying one keeps the order given
+        return {"kind": "sptenmat", "tshape": s, "rdims": r, "cdims": c_, "subs": subs, "vals": vals, "copy": False}
+    pairs = sorted(zip(map(tuple, subs), vals))
+    return {"kind": "sptenmat", "tshape": s, "rdims": r, "cdims": c_, "subs": [list(a) for a, _ in pairs], "vals": [v for _, v in pairs]}
+
+
+class Reports(Family):
+    """what the converted objects report: tshape / rindices / cindices / matrix shape / shape / ndims / nnz,
+    for every ordered partition of the modes (N <= 3 quick / N <= 4 thorough), every convention, malformed
+    splits; sparsity classes empty / one / some / all in sorted / reversed / shuffled stored order"""
+    name = "reports"
+    theorems = ("C01_tenmat_reports", "C01_tenmat_accepts", "C01_sptenmat_reports", "C01_sptenmat_accepts",
+                "C01_toSptensor_reports", "C01_wrap_conventions")
+
+    def gen(self, rng, tier):
+        out = []
+        lim = 3 if tier == "quick" else 4
+        shapes = [[3], [2, 3], [3, 3], [2, 3, 4], [3, 1, 2], [2, 2, 3]] + ([[2, 3, 1, 2], [3, 2, 4, 2]] if tier == "thorough" else [[2, 1, 3, 2]])
+        shapes += [gen.shape(rng, 1, 4, 4, distinct=True) for _ in range(2 if tier == "quick" else 12)]
+        for s in shapes:
+            N = len(s)
+            parts = ordered_partitions(N)
+            if N > lim or (tier == "quick" and len(parts) > 32):
+                parts = rng.sample(parts, 24)
+            splits = [{"rdims": r, "cdims": c_} for r, c_ in parts]
+            for k in range(N):
+                splits += [{"rdims": [k], "cyc": cyc} for cyc in ("fc", "bc", "t")] + [{"rdims": [k]}, {"cdims": [k]}]
+            splits += [{"rdims": [0], "cdims": [0]}, {"rdims": [N]}, {}, {"cdims": [N]}, {"rdims": [N], "cyc": "bc"}]
+            D = {"kind": "dense", "shape": s, "data": _distinct_data(rng, s)}
+            for sp in splits:
+                out.append({"H": D, "steps": [dict(sp, c="to_tenmat")]})
+            for klass in ("empty", "one", "some", "all"):
+                subs, vals = gen.sparse_entries(rng, s, klass)
+                S = {"kind": "sparse", "shape": s, "subs": subs, "vals": vals}
+                sps = splits if (klass == "some" or tier == "thorough") else rng.sample(splits, min(len(splits), 10))
+                for sp in sps:
+                    out.append({"H": S, "steps": [dict(sp, c="to_sptenmat")]})
+                out.append({"H": S, "steps": [{"c": "full"}, {"c": "to_sptensor"}]})
+            for zs in (0.0, 0.5, 1.0):
+                out.append({"H": {"kind": "dense", "shape": s, "data": gen.dense_data(rng, s, zs)},
+                            "steps": [{"c": "to_sptensor"}, {"c": "full"}]})
+        return out
+
+    def evaluate(self, cases):
+        return _run_chain(cases, lambda c: [c["H"]["kind"], c["steps"][0]["c"], c["steps"][0].get("cyc") or "split"])
+
+    def shrink(self, case):
+        return _shrink_chain(case)
+
+
+class DoubleAll(Family):
+    """X.double() / X.to_tensor() / X.full() of every class (tensor, sptensor, ktensor, ttensor, sumtensor, tenmat,
+    sptenmat): the array of full() (the matrix for the matricized classes)"""
+    name = "double_all"
+    theorems = ("C01_double_tensor", "C01_double_sptensor", "C01_double_ktensor", "C01_double_ttensor",
+                "C01_double_sumtensor", "C01_double_tenmat", "C01_double_sptenmat", "C01_double_holder",
+                "C01_tenmat_toTensor", "C01_sptenmat_toSptensor", "C01_sptenmat_full_any")
+
+    def gen(self, rng, tier):
+        out = []
+        for s in _shape_pool(rng, tier):
+            for kind in _HAS:
+                for _ in range(1 if tier == "quick" else 3):
+                    H = rand_holder(rng, kind, s)
+                    for m in _HAS[kind]:
+                        if m in ("to_tenmat", "to_sptenmat"):
+                            continue
+                        out.append({"H": H, "steps": [{"c": m}]})
+        # sparsity classes x stored orders for the two scatter implementations
+        for s in ([3], [2, 3], [3, 1, 2], [2, 2, 2]):
+            for klass in ("empty", "one", "some", "all"):
+                for order in ("sorted", "reversed", "shuffled"):
+                    subs, vals = gen.sparse_entries(rng, s, klass, order)
+                    out.append({"H": {"kind": "sparse", "shape": s, "subs": subs, "vals": vals}, "steps": [{"c": "to_tensor"}]})
+                    p = gen.perm(rng, len(s))
+                    k = rng.randint(0, len(s))
+                    R, C = gen.numel([s[m] for m in p[:k]]), gen.numel([s[m] for m in p[k:]])
+                    subs, vals = gen.sparse_entries(rng, [R, C], klass, order)
+                    out.append({"H": {"kind": "sptenmat", "tshape": s, "rdims": p[:k], "cdims": p[k:], "subs": subs, "vals": vals,
+                                      "copy": False}, "steps": [{"c": "full"}]})
+        return out
+
+    def evaluate(self, cases):
+        return _run_chain(cases, lambda c: [c["H"]["kind"], c["steps"][0]["c"]])
+
+    def shrink(self, case):
+        return _shrink_chain(case)
+
+
+class Chains(Family):
+    """random chains of 2..6 conversions between the seven classes, starting from any class - also from dense /
+    sparse operands with a history (grown, filled from empty, views, unsorted element assignment ...); mostly
+    well-typed chains, some with a missing method or a malformed mode split somewhere"""
+    name = "chains"
+    theorems = ("C01_chain", "C01_chain_accepts", "C01_chain_accepts_iff", "C01_step_rejects", "C01_split_valid_iff",
+                "C01_chain_double", "C01_double_holder", "C01_chain_rejects_missing_method")
+
+    @staticmethod
+    def _steps(rng, kind, N, length, p_bad):
+        steps = []
+        for _ in range(length):
+            if rng.random() < p_bad:
+                if rng.random() < 0.5:
+                    m = rng.choice([x for x in _METHODS if x not in _HAS[kind]])
+                    st = dict(_rand_split(rng, N), c=m) if m in ("to_tenmat", "to_sptenmat") else {"c": m}
+                else:
+                    ms = [x for x in _HAS[kind] if x in ("to_tenmat", "to_sptenmat")]
+                    if not ms:
+                        continue
+                    st = dict(_rand_split(rng, N, valid=False), c=ms[0])
+                steps.append(st)
+                break
+            m = rng.choice(sorted(_HAS[kind]))
+            st = dict(_rand_split(rng, N), c=m) if m in ("to_tenmat", "to_sptenmat") else {"c": m}
+            steps.append(st)
+            kind = _HAS[kind][m]
+        return steps
+
+    def gen(self, rng, tier):
+        out = []
+        n = 300 if tier == "quick" else 4000
+        for _ in range(n):
+            s = gen.shape(rng, 1, 4, 4 if rng.random() < 0.8 else 3, distinct=rng.random() < 0.5)
+            kind = rng.choice(sorted(_HAS))
+            H = rand_holder(rng, kind, s)
+            out.append({"H": H, "steps": self._steps(rng, kind, len(s), rng.randint(2, 6), 0.04)})
+        hist = [("dense", lb, src) for lb, src in dense_sources(rng, "quick")] + \
+               [("sparse", lb, src) for lb, src in sparse_sources(rng, "quick")]
+        if tier == "thorough":
+            hist += [("dense", "random-history", random_dense_source(rng)) for _ in range(60)]
+        picks = hist if tier == "thorough" else rng.sample(hist, min(len(hist), 60))
+        for kind, lb, src in picks:
+            try:
+                N = len((ref_dense(src) if kind == "dense" else ref_sparse(src)).shape)
+            except Exception:  # noqa: BLE001
+                continue
+            if N == 0:
+                continue
+            out.append({"H": {"kind": kind, "src": src, "label": lb}, "steps": self._steps(rng, kind, N, rng.randint(2, 6), 0.0)})
+        return out
+
+    def evaluate(self, cases):
+        return _run_chain(cases, lambda c: [c["H"]["kind"], f"len{len(c['steps'])}", "history" if "src" in c["H"] else "direct"])
+
+    def shrink(self, case):
+        return _shrink_chain(case)
+
+
+class KtensorTenmat(Family):
+    """ktensor.to_tenmat(rdims, cdims, cdims_cyclic): every ordered partition of the modes for N <= 3 (quick) /
+    N <= 4 (thorough), every convention, malformed splits; compared with the model (= K.full().to_tenmat),
+    with the Khatri-Rao form (khatrirao(A[r], reverse) * lambda) @ khatrirao(A[c], reverse).T computed by the
+    model, and with the sum formula placed by the placement rule"""
+    name = "ktensor_tenmat"
+    theorems = ("C01_kruskal_tenmat_entry", "C01_kruskal_tenmat_conventions", "C01_kruskal_tenmat_khatrirao",
+                "C01_kruskal_tenmat_khatrirao_matrix")
+
+    def gen(self, rng, tier):
+        out = []
+        lim = 3 if tier == "quick" else 4
+        shapes = [[3], [2, 3], [3, 3], [2, 3, 4], [3, 1, 2], [2, 2, 3]] + ([[2, 3, 1, 2], [3, 2, 4, 2]] if tier == "thorough" else [[2, 1, 3, 2]])
+        shapes += [gen.shape(rng, 1, 4, 4, distinct=True) for _ in range(2 if tier == "quick" else 12)]
+        for s in shapes:
+            N = len(s)
+            for R in ((1, 3) if tier == "quick" else (1, 2, 3)):
+                K = {"weights": gen.int_values(rng, R, -3, 3), "factors": [gen.matrix(rng, m, R) for m in s]}
+                parts = ordered_partitions(N)
+                if N > lim or (tier == "quick" and len(parts) > 32):
+                    parts = rng.sample(parts, 24)
+                for r, c_ in parts:
+                    out.append({"K": K, "rdims": r, "cdims": c_, "cyc": None})
+                for k in range(N):
+                    for cyc in ("fc", "bc", "t", None):
+                        out.append({"K": K, "rdims": [k], "cdims": None, "cyc": cyc})
+                    out.append({"K": K, "rdims": None, "cdims": [k], "cyc": None})
+                for bad in ({"rdims": [0], "cdims": [0]}, {"rdims": [N], "cdims": None}, {"rdims": None, "cdims": None},
+                            {"rdims": [N], "cdims": None, "cyc": "fc"}):
+                    out.append({"K": K, "rdims": bad.get("rdims"), "cdims": bad.get("cdims"), "cyc": bad.get("cyc")})
+        return out
+
+    def evaluate(self, cases):
+        impls, reqs = [], []
+        for c in cases:
+            K = gen.mk_ktensor(ttb, c["K"]["weights"], c["K"]["factors"])
+            impls.append(call(lambda K=K, c=c: state_j(K.to_tenmat(**_kw(c)))))
+            reqs.append({"op": "c01_k_tenmat", "K": c["K"], "rdims": c["rdims"], "cdims": c["cdims"], "cyc": c["cyc"]})
+        models = drive(reqs)
+        out = []
+        for c, impl, m in zip(cases, impls, models):
+            ref = _kruskal_ref(c["K"]["weights"], c["K"]["factors"])
+            N = len(ref["shape"])
+            split = wrap_ref(N, c["rdims"], c["cdims"], c["cyc"])
+            tags = [f"N{N}", f"R{len(c['K']['weights'])}", c["cyc"] or ("both" if c["rdims"] is not None and c["cdims"] is not None else "one")]
+            bad = None
+            if split is None:
+                if "ok" in impl:
+                    bad = "a split that is not a partition of the modes was accepted"
+                elif "ok" in m["model"]:
+                    bad = "refused by the implementation and the specification, accepted by the model"
+                out.append(Verdict("violation" if bad else "ok", bad or "", strip_exc(impl), m, None, tags + ["refused"], False))
+                continue
+            if "ok" not in impl:
+                bad = f"ktensor.to_tenmat raised on a valid split: {impl.get('exc')} {impl.get('msg')}"
+            else:
+                sj = impl["ok"]
+                bad = check_state(sj, ref, split)
+                if not bad:
+                    if "ok" not in m["model"]:
+                        bad = "accepted by the implementation, refused by the model"
+                    elif not deep_eq(sj, m["model"]["ok"]):
+                        bad = "ktensor.to_tenmat differs from the proved model"
+                    elif "ok" not in m["via_full"] or not deep_eq({k: v for k, v in sj["h"].items() if k != "kind"}, m["via_full"]["ok"]):
+                        bad = "ktensor.to_tenmat differs from full().to_tenmat of the model"
+                    elif split[0] and split[1] and ("ok" not in m["kr"] or not deep_eq(sj["h"]["data"], m["kr"]["ok"])):
+                        bad = "ktensor.to_tenmat differs from the Khatri-Rao form of the matricization"
+            out.append(Verdict("violation" if bad else "ok", bad or "", impl, m, {"ref": ref, "split": split}, tags, gen.numel(ref["shape"]) > 1))
+        return out
+
+
+class TenmatCtor(Family):
+    """the tenmat constructor tenmat(data, rdims, cdims, tshape): what the object reports must be consistent - tshape,
+    the split (a partition of the modes), and a matrix of shape (prod tshape[rdims], prod tshape[cdims]); matrices of
+    another shape with the same number of cells (transposed extents, a row, a column, another factorisation), vectors,
+    3-way arrays, empty arrays, missing arguments, modes out of range"""
+    name = "tenmat_ctor"
+    theorems = ("C01_tenmat_ctor_reports_partial", "C01_tenmat_ctor_wf", "C01_tenmat_ctor_shape_counterexample",
+                "C01_tenmat_toTensor", "C01_double_tenmat")
+
+    def gen(self, rng, tier):
+        out = []
+        shapes = [[3], [2, 3], [3, 3], [3, 1, 2], [2, 3, 2]] + ([[2, 3, 4], [2, 1, 2, 3]] if tier == "thorough" else [])
+        shapes += [gen.shape(rng, 1, 4, 4) for _ in range(3 if tier == "quick" else 20)]
+        for s in shapes:
+            N = len(s)
+            n = gen.numel(s)
+            parts = ordered_partitions(N)
+            if len(parts) > (8 if tier == "quick" else 30):
+                parts = rng.sample(parts, 8 if tier == "quick" else 30)
+            for r, c_ in parts:
+                R, C = gen.numel([s[m] for m in r]), gen.numel([s[m] for m in c_])
+                dshapes = {(R, C), (C, R), (1, n), (n, 1)} | {(a, n // a) for a in range(1, n + 1) if n % a == 0 and rng.random() < 0.4}
+                for ds in sorted(dshapes):
+                    data = _distinct_data(rng, list(ds))
+                    out.append({"dshape": list(ds), "data": data, "rdims": r, "cdims": c_, "tshape": s})
+                out.append({"dshape": [n], "data": _distinct_data(rng, [n]), "rdims": r, "cdims": c_, "tshape": s})
+                out.append({"dshape": [R, C], "data": _distinct_data(rng, [R, C]), "rdims": r, "cdims": None, "tshape": s})
+                out.append({"dshape": [R, C], "data": _distinct_data(rng, [R, C]), "rdims": None, "cdims": c_, "tshape": s})
+            # defaults and malformed arguments
+            a, b = s[0], n // s[0]
+            d2 = _distinct_data(rng, [a, b])
+            out.append({"dshape": [a, b], "data": d2, "rdims": [0], "cdims": None, "tshape": None})
+            out.append({"dshape": [a, b], "data": d2, "rdims": None, "cdims": None, "tshape": s})
+            out.append({"dshape": [a, b], "data": d2, "rdims": [N], "cdims": None, "tshape": s})
+            out.append({"dshape": [a, b], "data": d2, "rdims": [0], "cdims": [0], "tshape": s})
+            out.append({"dshape": [a, b], "data": d2, "rdims": [0], "cdims": None, "tshape": s + [2]})
+            out.append({"dshape": [n], "data": _distinct_data(rng, [n]), "rdims": [0], "cdims": None, "tshape": None})
+            out.append({"dshape": [a, b, 1], "data": d2, "rdims": [0], "cdims": None, "tshape": s})
+            out.append({"dshape": [0, 3], "data": [], "rdims": [0], "cdims": [1], "tshape": [0, 3]})
+            out.append({"dshape": [0], "data": [], "rdims": None, "cdims": None, "tshape": None})
+        return out
+
+    def evaluate(self, cases):
+        impls, reqs = [], []
+        for c in cases:
+            def f(c=c):
+                A = np.array(c["data"], dtype=float).reshape(tuple(c["dshape"]), order="F")
+                kw = _kw(c)
+                if c["tshape"] is not None:
+                    kw["tshape"] = tuple(c["tshape"])
+                M = ttb.tenmat(A, **kw)
+                return {"state": state_j(M), "back": read_dense(M.to_tensor()) if M.data.size else None}
+            with _quiet():
+                impls.append(call(f))
+            reqs.append({"op": "c01_tenmat_ctor", "data": {"shape": c["dshape"], "data": c["data"]}, "rdims": c["rdims"],
+                         "cdims": c["cdims"], "tshape": c["tshape"]})
+        models = drive(reqs)
+        out = []
+        for c, impl, m in zip(cases, impls, models):
+            ds = c["dshape"]
+            n = gen.numel(ds)
+            tags = [f"d{len(ds)}", "tshape" if c["tshape"] is not None else "default"]
+            # specification: the matrix (a vector is one row), the tensor shape, the split, consistency
+            spec_ok, why = True, ""
+            mshape = [1, ds[0]] if len(ds) == 1 else list(ds)
+            ts = c["tshape"] if c["tshape"] is not None else mshape
+            split = None
+            if n == 0:
+                spec_ok = c["rdims"] in (None, []) and c["cdims"] in (None, []) and c["tshape"] in (None, [])
+                why = "empty"
+            elif len(ds) not in (1, 2) or (len(ds) == 1 and c["tshape"] is None):
+                spec_ok, why = False, "not a matrix"
+            elif gen.numel(ts) != n:
+                spec_ok, why = False, "cell count"
+            else:
+                split = wrap_ref(len(ts), c["rdims"], c["cdims"], None)
+                if split is None:
+                    spec_ok, why = False, "split"
+                else:
+                    want = [gen.numel([ts[k] for k in split[0]]), gen.numel([ts[k] for k in split[1]])]
+                    if mshape != want:
+                        spec_ok, why = False, f"matrix shape {mshape} contradicts the split, which prescribes {want}"
+            tags.append("consistent" if spec_ok else ("inconsistent-shape" if why.startswith("matrix shape") else "malformed"))
+            io, mo = "ok" in impl, "ok" in m
+            bad = None
+            if io != mo:
+                bad = "acceptance by the tenmat constructor differs from the model"
+            elif io and not deep_eq(impl["ok"]["state"], m["ok"]):
+                bad = "the constructed tenmat differs from the model (stored form / reports / double)"
+            elif io and not spec_ok:
+                bad = f"the tenmat constructor accepts an inconsistent object: {why}"
+            elif spec_ok and not io:
+                bad = f"the tenmat constructor raised on consistent arguments: {impl.get('exc')} {impl.get('msg')}"
+            elif io and n > 0:
+                sj = impl["ok"]["state"]
+                ref = _unmatricize(ts, split[0], split[1], {"shape": mshape, "data": c["data"]})
+                bad = check_state(sj, ref, split)
+                if not bad and not deep_eq(impl["ok"]["back"], ref):
+                    bad = "tenmat.to_tensor: entry i is not the matrix entry at (sub2ind rows, sub2ind cols)"
+            out.append(Verdict("violation" if bad else "ok", bad or "", strip_exc(impl) if not io else impl, m,
+                               {"accept": spec_ok, "why": why}, tags, spec_ok and n > 1))
+        return out
+
+
 def families():
     return [DenseSparse(), TenmatFam(), SptenmatFam(), SptenmatCtor(), KruskalFull(),
-            DerivedDense(), DerivedSparse(), DirectMatrices(), DerivedHolders()]
+            DerivedDense(), DerivedSparse(), DirectMatrices(), DerivedHolders(),
+            Reports(), DoubleAll(), Chains(), KtensorTenmat(), TenmatCtor()]
